@@ -554,3 +554,77 @@ def frame_records(names):
     for i, x in enumerate(out):
         x["_id"] = "frame.%d" % i
     return out
+
+
+# ---------------------------------------------------------------------------------------------
+# CPython cross-check (DESIGN §4.4-4): the symbolic executor is run on CONCRETE dimensions and its prediction (which input
+# entries every output entry reads) is compared with what CPython computes with the real function -- run in the executor.
+# ---------------------------------------------------------------------------------------------
+def crosscheck_cases(S, seed=0, count=24):
+    import random
+
+    from vt.pyvc.interp import Ctx, Interp
+    from vt.pyvc.sym import SumEntry
+
+    rnd = random.Random(seed)
+    out = []
+
+    def concretise(arr):
+        shape = [int(x) for x in arr.shape]
+        pred = []
+        for idx in itertools.product(*[range(n) for n in shape]):
+            e = arr.get(tuple(sp.Integer(i) for i in idx))
+            if isinstance(e, SumEntry):
+                bound, body = e.flat()
+                terms = []
+                for vals in itertools.product(*[range(int(r)) for _, r in bound]):
+                    sub = {d: v for (d, _), v in zip(bound, vals)}
+                    terms.append([int(sp.sympify(x).subs(sub)) for x in body.key()[1]])
+                pred.append(sorted(terms))
+            else:
+                pred.append([[int(x) for x in e.key()[1]]])
+        return shape, pred
+
+    for _ in range(count):
+        fn = rnd.choice(["permute_systems", "permute_systems", "partial_trace", "partial_transpose"])
+        n = rnd.choice([2, 2, 3])
+        d = [rnd.choice([1, 2, 3]) for _ in range(n)]
+        if int(np.prod(d)) < 2:
+            continue
+        sym.reset_world()
+        try:
+            if fn == "permute_systems":
+                perm = list(range(n))
+                rnd.shuffle(perm)
+                kind = rnd.choice(["vector", "matrix"])
+                ro, inv = rnd.random() < 0.5, rnd.random() < 0.5
+                c = d[1:] + d[:1]
+                if kind == "matrix" and int(np.prod(c)) < 2:
+                    continue
+                R, C = int(np.prod(d)), int(np.prod(c))
+                X = X_of((R,)) if kind == "vector" else X_of((R, C))
+                dim = list(d) if kind == "vector" else [list(d), list(c)]
+                it = Interp({"permute_systems": S.fn["permute_systems"], "vec": S.fn["vec"]}, {}, Ctx([]))
+                res = it.call_function("permute_systems", [X, perm, dim, False if kind == "vector" else ro, inv], {})
+                shape, pred = concretise(res)
+                params = dict(fn=fn, kind=kind, perm=perm, rdims=d, cdims=c, row_only=ro, inv=inv, shape=shape, pred=pred)
+            elif fn == "partial_trace":
+                k = rnd.randint(1, n - 1) if n > 1 else 1
+                Sx = rnd.sample(range(n), k)
+                N = int(np.prod(d))
+                it = Interp({"partial_trace": S.fn["partial_trace"], "permute_systems": S.fn["permute_systems"], "vec": S.fn["vec"]}, {}, Ctx([]))
+                res = it.call_function("partial_trace", [X_of((N, N)), list(Sx), list(d)], {})
+                shape, pred = concretise(res)
+                params = dict(fn=fn, sys=Sx, dims=d, shape=shape, pred=pred)
+            else:
+                k = rnd.randint(1, n)
+                Sx = sorted(rnd.sample(range(n), k))
+                N = int(np.prod(d))
+                it = Interp({"partial_transpose": S.fn["partial_transpose"], "permute_systems": S.fn["permute_systems"], "vec": S.fn["vec"]}, {}, Ctx([]))
+                res = it.call_function("partial_transpose", [X_of((N, N)), list(Sx), list(d)], {})
+                shape, pred = concretise(res)
+                params = dict(fn=fn, sys=Sx, dims=d, shape=shape, pred=pred)
+            out.append(dict(clause="e1.crosscheck", params=params, input_class="crosscheck/%s" % fn, function=fn))
+        except Exception as e:  # engine limitation on a concrete instance: recorded, not a failure of the code
+            out.append(dict(clause="e1.crosscheck", params=dict(fn=fn, engine_error="%s: %s" % (type(e).__name__, str(e)[:120])), input_class="crosscheck/%s" % fn, function=fn))
+    return out
